@@ -684,8 +684,10 @@ func (self *Compiler) compileInterface(p *ir.Program, vt reflect.Type) {
 		return
 	}
 
+	/* an interface is nil when its first word (the itab) is, a non-nil interface
+	 * may well hold a nil data word (nil map, struct of one nil pointer, ...) */
 	x := p.PC()
-	p.Add(ir.OP_is_nil_p1)
+	p.Add(ir.OP_is_nil)
 	p.Add(ir.OP_iface)
 
 	/* the "null" value */
